@@ -136,3 +136,46 @@ func (p *Prog) StableObligations() []StaticObl {
 	}
 	return out
 }
+
+// sentinelAlias resolves `var X = Y` / `var X = pkg.Y` (package level, error-like) to the variable
+// it is initialised from, when the declaring package's syntax is loaded.
+func (p *Prog) sentinelAlias(o *types.Var, depth int) *types.Var {
+	if depth > 4 || o.Pkg() == nil {
+		return nil
+	}
+	pk := p.Pkgs[o.Pkg().Path()]
+	if pk == nil {
+		return nil
+	}
+	for _, f := range pk.Syntax {
+		for _, d := range f.Decls {
+			gd, ok := d.(*ast.GenDecl)
+			if !ok || gd.Tok != token.VAR {
+				continue
+			}
+			for _, sp := range gd.Specs {
+				vs := sp.(*ast.ValueSpec)
+				for i, nm := range vs.Names {
+					if pk.TypesInfo.Defs[nm] != o || i >= len(vs.Values) {
+						continue
+					}
+					var target types.Object
+					switch v := ast.Unparen(vs.Values[i]).(type) {
+					case *ast.Ident:
+						target = pk.TypesInfo.Uses[v]
+					case *ast.SelectorExpr:
+						target = pk.TypesInfo.Uses[v.Sel]
+					}
+					if tv, ok := target.(*types.Var); ok && tv.Pkg() != nil && tv.Parent() == tv.Pkg().Scope() {
+						if a := p.sentinelAlias(tv, depth+1); a != nil {
+							return a
+						}
+						return tv
+					}
+					return nil
+				}
+			}
+		}
+	}
+	return nil
+}
